@@ -24,6 +24,12 @@ XIn == Ext(InputD("In", <<ArgD("g", S)>>))
 DSchema == SchemaD(<<RootD("query", "Query"), RootD("mutation", "Mutation")>>)
 DSchemaQ == SchemaD(<<RootD("query", "A")>>)
 
+DMut2 == ObjectD("Mutation", <<>>, <<FieldD("ping", I, <<>>)>>)
+DSub == ObjectD("Subscription", <<>>, <<FieldD("tick", I, <<>>)>>)
+XQuery2 == Ext(ObjectD("Query", <<>>, <<FieldD("c", I, <<>>)>>))
+XE2 == Ext(EnumD("E", <<EV("T")>>))
+XIn2 == Ext(InputD("In", <<ArgD("h", I)>>))
+
 Syntax == BaseDef("SYNTAX", "")
 ReadFault == BaseDef("READFAULT", "")
 FUndef == ObjectD("Z", <<>>, <<FieldD("q", Named("Nope"), <<>>)>>)
@@ -37,10 +43,15 @@ FInOut == InputD("I2", <<ArgD("a", Named("A"))>>)
 
 GoodDocs ==
   { <<DQuery, DA, DB, DN>>, <<DU1, DE, DIn>>, <<DMut>>, <<DTag, DDate>>, <<XQuery>>, <<XA>>, <<XE, XU>>, <<XIn>>,
-    <<DSchema>>, <<DSchemaQ>>, <<DE>>, <<DIn, DMut>> }
+    <<DSchema>>, <<DSchemaQ>>, <<DE>>, <<DIn, DMut>>, <<DMut2>>, <<DSub>>, <<XQuery2, XE2>> }
 BadDocs ==
   { <<Syntax>>, <<XQuery, Syntax>>, <<DSchemaQ, Syntax>>, <<DE, ReadFault>>, <<XE, ReadFault, XU>>,
     <<XE, FXNotFound>>, <<XQuery, FEmpty>>, <<DSchemaQ, FUndef>>, <<FDup>>, <<XIn, FXDupField>>, <<XQuery, FXKind>>,
-    <<FIface>>, <<XE, FInOut>>, <<DDate, FUndef>>, <<XA, XU, FEmpty>> }
+    <<FIface>>, <<XE, FInOut>>, <<DDate, FUndef>>, <<XA, XU, FEmpty>>,
+    \* an operation root type in a document refused only by the final validation; one type extended twice before the failure
+    <<DMut2, FEmpty>>, <<DSub, FInOut>>, <<XQuery, XQuery2, FEmpty>>, <<XE, XE2, FXNotFound>>, <<XIn, XIn2, FXDupField>> }
+G1 == <<DQuery, DA, DB, DN>>
+G2 == <<DU1, DE, DIn>>
+Prefixes == [ p0 |-> <<>>, p1 |-> <<G1>>, p2 |-> <<G1, G2>>, p3 |-> <<G1, G2, <<DTag, DDate>>, <<DMut>>>> ]
 LoadDocs == GoodDocs \cup BadDocs
 =============================================================================
